@@ -85,6 +85,78 @@ void tree_dump(OUT* o, CMR_SEYMOUR_NODE* node)
   out_str(o, " }");
 }
 
+static void collect_nodes(CMR_SEYMOUR_NODE* node, CMR_SEYMOUR_NODE** arr, size_t* pn, size_t cap)
+{
+  if (!node || *pn >= cap) return;
+  arr[(*pn)++] = node;
+  for (size_t c = 0; c < CMRseymourNumChildren(node); ++c) collect_nodes(CMRseymourChild(node, c), arr, pn, cap);
+}
+
+/* treeseq <tern 0|1> <mask0> M k (<C|R> <mask> <target>)*
+ *   builds a tree with CMRtuTest (tern=1) / CMRregularTest (tern=0) under mask0, then applies k complete/refine operations
+ *   to the node with pre-order index target (mod number of nodes), dumping the tree after every step */
+static CMR_ERROR op_treeseq(CMR* cmr, TOKS* t, OUT* o)
+{
+  int tern = (int) tk_int(t);
+  unsigned long mask0 = (unsigned long) tk_int(t);
+  CMR_CHRMAT* A = NULL;
+  HCALL( in_chrmat(cmr, t, &A) );
+  size_t k = (size_t) tk_int(t);
+  if (t->bad || k > 32 || (int) (3 * k) > tk_left(t)) { t->bad = 1; if (A) CMRchrmatFree(cmr, &A); return CMR_OKAY; }
+  CMR_SEYMOUR_NODE* root = NULL;
+  bool is = false;
+  CMR_ERROR e;
+  if (tern)
+  {
+    CMR_TU_PARAMS p; tu_params_from_mask(&p, mask0);
+    p.algorithm = CMR_TU_ALGORITHM_DECOMPOSITION; p.ternary = true;
+    e = CMRtuTest(cmr, A, &is, &root, NULL, &p, NULL, h_time_limit);
+  }
+  else
+  {
+    CMR_REGULAR_PARAMS p; CMRregularParamsInit(&p); seymour_params_from_mask(&p.seymour, mask0);
+    e = CMRregularTest(cmr, A, &is, &root, NULL, &p, NULL, h_time_limit);
+  }
+  if (e || !root) { if (root) CMRseymourRelease(cmr, &root); CMRchrmatFree(cmr, &A); if (!e) out_str(o, " notree"); return e; }
+  out_str(o, " T"); tree_dump(o, root);
+  for (size_t step = 0; step < k; ++step)
+  {
+    const char* act = tk_next(t);
+    unsigned long mask = (unsigned long) tk_int(t);
+    size_t target = (size_t) tk_int(t);
+    CMR_SEYMOUR_NODE* nodes[512]; size_t nn = 0;
+    collect_nodes(root, nodes, &nn, 512);
+    if (act[0] == 'c' || act[0] == 'r')
+    {
+      /* lower case: only leaves of unknown type are targets (completing a partial tree) */
+      size_t nl = 0;
+      for (size_t i = 0; i < nn; ++i)
+        if (CMRseymourNumChildren(nodes[i]) == 0 && CMRseymourType(nodes[i]) == CMR_SEYMOUR_NODE_TYPE_UNKNOWN) nodes[nl++] = nodes[i];
+      if (nl == 0) { out_fmt(o, " step%zu:noleaf", step); continue; }
+      nn = nl;
+    }
+    CMR_SEYMOUR_NODE* nd = nodes[target % nn];
+    if (act[0] == 'C' || act[0] == 'c')
+    {
+      if (tern) { CMR_TU_PARAMS p; tu_params_from_mask(&p, mask); p.algorithm = CMR_TU_ALGORITHM_DECOMPOSITION; p.ternary = true;
+        e = CMRtuCompleteDecomposition(cmr, nd, &p, NULL, h_time_limit); }
+      else { CMR_REGULAR_PARAMS p; CMRregularParamsInit(&p); seymour_params_from_mask(&p.seymour, mask);
+        e = CMRregularCompleteDecomposition(cmr, nd, &p, NULL, h_time_limit); }
+    }
+    else
+    {
+      CMR_REGULAR_PARAMS p; CMRregularParamsInit(&p); seymour_params_from_mask(&p.seymour, mask);
+      e = CMRregularRefineDecomposition(cmr, 1, &nd, &p, NULL, h_time_limit);
+    }
+    if (e) { out_fmt(o, " step%zu:err:%s", step, errname(e)); break; }
+    out_str(o, " T"); tree_dump(o, root);
+  }
+  CMRseymourRelease(cmr, &root);
+  CMRchrmatFree(cmr, &A);
+  return CMR_OKAY;
+}
+
 OPDEF ops_tree[] = {
+  { "treeseq", op_treeseq },
   { NULL, NULL }
 };
